@@ -34,7 +34,8 @@ type BasePathFile struct {
 
 func (f *BasePathFile) Name() string {
 	sourcename := f.File.Name()
-	return strings.TrimPrefix(sourcename, filepath.Clean(f.path))
+	// strip the base but keep the separator in front of the rest, also when the base is "/"
+	return strings.TrimPrefix(sourcename, strings.TrimSuffix(filepath.Clean(f.path), FilePathSeparator))
 }
 
 func (f *BasePathFile) ReadDir(n int) ([]fs.DirEntry, error) {
